@@ -89,12 +89,14 @@ static void functional_cycle (const tup_t *t, of_session_t *s)
 		for (i = k; i < n; i++) { rsr_encode_symbol (mm, (int) k, G + (size_t) i * k, sym, want, len); if (memcmp (want, sym[i], len)) { viol ("kind=accepted-but-repair-symbol-wrong"); break; } }
 		free (G); free (want);
 	}
-	for (loss = 0; loss < 2; loss++) {
+	for (loss = 0; loss < 3; loss++) {	/* 0: the first k symbols; 1: source 0 lost, ascending; 2: source 0 lost, descending (the last repair symbols are used first) */
 		void **src = calloc (k, sizeof (void *));
-		if (!(t->role & OF_DECODER) || loss == 1) { tw.role = OF_DECODER; dec = open_tuple (&tw, &st); own_dec = 1; if (!dec || st != OF_STATUS_OK) { viol ("kind=twin-decoder-rejected-same-parameters"); free (src); goto out; } }
+		if (!(t->role & OF_DECODER) || loss >= 1) { tw.role = OF_DECODER; dec = open_tuple (&tw, &st); own_dec = 1; if (!dec || st != OF_STATUS_OK) { viol ("kind=twin-decoder-rejected-same-parameters"); free (src); goto out; } }
 		else { dec = s; own_dec = 0; }
+		if (loss == 2 && n > 20000 && len > 64) { free (src); if (own_dec) { of_release_codec_instance (dec); own_dec = 0; } continue; }
 		for (i = loss ? 1 : 0; i < n; i++) {
-			st = of_decode_with_new_symbol (dec, sym[i], i);
+			uint32_t e = loss == 2 ? n - i : i;	/* descending: n-1 .. 1 */
+			st = of_decode_with_new_symbol (dec, sym[e], e);
 			if (st != OF_STATUS_OK) { viol ("kind=accepted-but-decode_with_new_symbol-fails"); break; }
 			if (!loss && i + 1 == k) break;
 		}
@@ -102,7 +104,7 @@ static void functional_cycle (const tup_t *t, of_session_t *s)
 		if (!of_is_decoding_complete (dec)) { char sig[96]; snprintf (sig, sizeof sig, "codec=%d|kind=accepted-but-decoding-does-not-complete|loss=%d", t->codec, loss); viol (sig); }
 		else if (of_get_source_symbols_tab (dec, src) != OF_STATUS_OK) viol ("kind=accepted-but-source-table-unavailable");
 		else for (i = 0; i < k; i++) if (!src[i] || memcmp (src[i], sym[i], len)) { char sig[96]; snprintf (sig, sizeof sig, "codec=%d|kind=accepted-but-decoded-symbol-wrong|loss=%d", t->codec, loss); viol (sig); break; }
-		{ void *p0 = (loss && src[0] != sym[0]) ? src[0] : NULL; if (own_dec) { of_release_codec_instance (dec); own_dec = 0; } free (p0); }
+		{ if (own_dec) { of_release_codec_instance (dec); own_dec = 0; } if (loss) for (i = 0; i < k; i++) if (src[i] && src[i] != sym[i]) free (src[i]); }
 		free (src);
 	}
 out:
@@ -349,6 +351,13 @@ int main (int argc, char **argv)
 				if (!thorough && (x + y + z) % 3 && lr[x] > 600 && lk[y] > 10) continue;
 				add_tu (3, roles[(x + y + z) % 3], lk[y], lr[x], 8, 8, ln1[z], 1 + z);
 				if (thorough) { add_tu (3, roles[(x + y + z + 1) % 3], lk[y], lr[x], 8, 8, ln1[z], 1 + z); add_tu (3, roles[(x + y + z + 2) % 3], lk[y], lr[x], 8, 8, ln1[z], 1 + z); }
+			}
+			{	/* derived quantities at a width boundary: the number of extra entries 2(n-k) - N1*k of a low-rate code with even N1 equal to 2^8, 2^9, 2^16 */
+				static const uint32_t ex[] = {256, 512, 65536}, ek[] = {2, 3, 5, 10, 100};
+				for (x = 0; x < 3; x++) for (y = 0; y < 5; y++) for (z = 4; z <= 6; z += 2) {
+					if (ex[x] > 60000 && (y > 1 || (!thorough && z == 6))) continue;
+					add_tu (3, roles[(x + y + z / 2) % 3], ek[y], (ex[x] + (uint32_t) z * ek[y]) / 2, 8, 8, (uint32_t) z, 1 + y);
+				}
 			}
 			for (x = 0; x < (int) (sizeof rk / sizeof rk[0]); x++) for (role = 0; role < 3; role++) {
 				static const uint32_t rr[] = {1, 3, 5};
